@@ -91,6 +91,16 @@ func (e *Env) eval(ce *CE) (CVal, error) {
 		if v, ok := e.vars[ce.Name]; ok {
 			return v, nil
 		}
+		if a, ok := e.vars["&"+ce.Name]; ok && a.Ty != nil {
+			// a local that lives in a heap cell: its current value in this environment's state
+			if pt, ok := a.Ty.Underlying().(*types.Pointer); ok {
+				if stt, isStruct := pt.Elem().Underlying().(*types.Struct); isStruct {
+					return CVal{T: fg.loadStruct(e.st, a.T, pt.Elem(), stt), Ty: pt.Elem()}, nil
+				}
+				name, hs := fg.cellVar(pt.Elem())
+				return CVal{T: Select(fg.lookup(e.st, name, hs), a.T), Ty: pt.Elem()}, nil
+			}
+		}
 		if v, ok := e.lookupPackageName(ce.Name); ok {
 			return v, nil
 		}
@@ -716,6 +726,24 @@ func (e *Env) call(ce *CE) (CVal, error) {
 			return CVal{}, err
 		}
 		return CVal{T: IVal(a.T), Ty: ty}, nil
+	case "sliceContains":
+		// the same deterministic predicate the code's slices.Contains call is modelled by
+		sv, err := e.eval(args[0])
+		if err != nil {
+			return CVal{}, err
+		}
+		v, err := e.eval(args[1])
+		if err != nil {
+			return CVal{}, err
+		}
+		if sv.T == nil || sv.Ty == nil || v.T == nil {
+			return CVal{}, fmt.Errorf("bad sliceContains arguments")
+		}
+		sl, ok := sv.Ty.Underlying().(*types.Slice)
+		if !ok {
+			return CVal{}, fmt.Errorf("sliceContains on non-slice")
+		}
+		return CVal{T: fg.sliceContains(sv.T, sl.Elem(), v.T, e.st)}, nil
 	case "gmap", "gmapUpdated":
 		// ghost map attached to an object (e.g. the content of an InMemoryCache): GM:<name> : ref -> key -> interface value
 		if args[0].Kind != "str" {
